@@ -92,6 +92,42 @@ Definition cls_session (i : term) : list Z :=
        end) (opens_with_obs 0 evts evts)
   then [23] else [].
 
+(* ---- conversations with a simulated tool ---- *)
+Definition conv_entry (tab : list term) (x : Z) : list term :=
+  match find (fun e => gz (gn e 0) =? x) tab with Some e => gl (gn e 1) | None => [] end.
+Definition conv_a2l_tool (tab : list term) : a2l_tool :=
+  fun x => map (fun f => (gs (gn f 0), gs (gn f 1))) (conv_entry tab x).
+Definition conv_llvm_tool (tab : list term) : llvm_tool :=
+  fun x => map (fun f => {| fr_func := gs (gn f 0); fr_file := gs (gn f 1); fr_line := gz (gn f 2) |}) (conv_entry tab x).
+Definition of_frame (f : frame) : term := TL [TS (fr_func f); TS (fr_file f); TZ (fr_line f)].
+Definition frame_of (t : term) : frame := {| fr_func := gs (gn t 0); fr_file := gs (gn t 1); fr_line := gz (gn t 2) |}.
+Definition of_conv_res (r : res (list frame)) : term :=
+  match r with Ok st => TL [TS "ok"; TL (map of_frame st)] | Err _ => TL [TS "err"] end.
+Definition conv_res_of (t : term) : res (list frame) :=
+  if String.eqb (gs (gn t 0)) "ok" then Ok (map frame_of (gl (gn t 1))) else Err E_TOOL.
+Definition conv_nm (i : term) : option (list sym) :=
+  if gb (gn i 5) then Some (shift_syms (gz (gn i 2)) (map sym_of (gl (gn i 4)))) else None.
+
+Definition run_conv (i : term) : term :=
+  let base := gz (gn i 2) in
+  let tab := gl (gn i 3) in
+  let addrs := gzs (gn i 6) in
+  if String.eqb (gs (gn i 1)) "a2l" then
+    let '(rs, p) := a2l_conversation (conv_a2l_tool tab) base (conv_nm i) [] addrs in
+    TL [TL (map of_conv_res rs); TZ (Z.of_nat (List.length p))]
+  else
+    let '(rs, p) := llvm_conversation (conv_llvm_tool tab) base [] addrs in
+    TL [TL (map of_conv_res rs); TZ (Z.of_nat (List.length p))].
+
+Definition spec_conv_case (i o : term) : bool :=
+  let base := gz (gn i 2) in
+  let tab := gl (gn i 3) in
+  let addrs := gzs (gn i 6) in
+  let rs := map conv_res_of (gl (gn o 0)) in
+  (gz (gn o 1) =? 0) &&     (* nothing of the conversation is left unread in the pipe *)
+  if String.eqb (gs (gn i 1)) "a2l" then spec_conv (conv_a2l_tool tab) base (conv_nm i) addrs rs
+  else spec_conv_llvm (conv_llvm_tool tab) base addrs rs.
+
 Definition run_C13 (i : term) : term :=
   let op := gs (gn i 0) in
   if String.eqb op "getbase" then
@@ -115,6 +151,8 @@ Definition run_C13 (i : term) : term :=
     let tab := shift_syms (gz (gn i 1)) (map sym_of (gl (gn i 2))) in
     TL (map (fun a => of_optname (addr_info tab a)) (gzs (gn i 3)))
   else if String.eqb op "maps" then TL []
+  else if String.eqb op "conv" then run_conv i
+  else if String.eqb op "realsym" then TL (map (fun q => TS (gs (gn q 1))) (gl (gn i 2)))
   else if String.eqb op "session" then
     TL (map of_sobs (session_run (map elf_of (gl (gn i 1))) (map sev_of (gl (gn i 2)))))
   else if String.eqb op "a2lnm" then
@@ -158,6 +196,11 @@ Definition spec_C13 (i o : term) : bool :=
     (List.length addrs =? List.length (gl o))%nat &&
     forallb (fun ar => spec_addr_info tab (fst ar) (optname_of (snd ar))) (combine addrs (gl o))
   else if String.eqb op "session" then spec_session i o
+  else if String.eqb op "conv" then spec_conv_case i o
+  else if String.eqb op "realsym" then
+    (* real tools, real binary: the function reported for the address of main / hot is main / hot at
+       every position of the conversation ("" = an address without symbol, answer not judged) *)
+    strs_eqb (gss o) (map (fun q => gs (gn q 1)) (gl (gn i 2)))
   else if String.eqb op "a2lnm" then
     if gb (gn i 3) then spec_a2l_fixup (shift_syms (gz (gn i 1)) (map sym_of (gl (gn i 2)))) (gz (gn i 4)) (gss (gn i 5)) (gss o)
     else strs_eqb (gss o) (gss (gn i 5))
